@@ -354,14 +354,14 @@ def parseSpec (w : String) : Option (Except Err Spec) :=
       else some (.error .unsupported)     -- a bare day of month: depends on the current date
     else none
   | [y, m] =>
-    if allDigits y && allDigits m && y.length = 4 then
+    if allDigits y && allDigits m && y.length = 4 && m.length ≤ 2 then
       let yy : Int := y.toNat!
       let mm : Int := m.toNat!
       if 1400 ≤ yy ∧ 1 ≤ mm ∧ mm ≤ 12 then some (.ok { year := yy, month := some mm, day := none })
       else some (.error .parse)
     else some (.error .unsupported)
   | [y, m, d] =>
-    if allDigits y && allDigits m && allDigits d && y.length = 4 then
+    if allDigits y && allDigits m && allDigits d && y.length = 4 && m.length ≤ 2 && d.length ≤ 2 then
       let yy : Int := y.toNat!
       let mm : Int := m.toNat!
       let dd : Int := d.toNat!
@@ -393,12 +393,45 @@ structure PState where
   incl : Option Spec := none
   duration : Option Duration := none
 
+/-- Is the word one the lexer gives a token of its own (keyword, quantum word, relative-date
+    word, month or weekday name)? -/
+def knownWord (w : String) : Bool :=
+  Gen.sinceWords.contains w || Gen.untilWords.contains w || Gen.inWords.contains w || Gen.everyWords.contains w ||
+  Gen.otherWords.contains w || (Gen.periodKeywords.any (fun e => e.1 = w)) ||
+  (Gen.everyPlural.any (fun e => e.1 = w)) || (Gen.everySingular.any (fun e => e.1 = w))
+
+def quantumWord (w : String) : Bool :=
+  (Gen.everyPlural.any (fun e => e.1 = w)) || (Gen.everySingular.any (fun e => e.1 = w))
+
+/-- After an integer token `determine_when` peeks at the next token (times.cc 589).  A quantum
+    word there starts `N months ago|hence` (outside the model).  An identifier the lexer does
+    not know becomes an UNKNOWN token, and because `token_cache` uses the kind UNKNOWN for
+    "empty" (times.cc 546-550, 1474-1478) the peeked token is lost: the word is silently
+    dropped.  Every other token stays cached and is read next. -/
+def afterInt (rest : List String) : Except Err (List String) :=
+  match rest with
+  | [] => .ok []
+  | w :: rest' =>
+    if quantumWord w then .error .unsupported
+    else if knownWord w then .ok (w :: rest')
+    else match w.toList with
+      | [] => .ok rest'
+      | c :: _ =>
+        if c.isDigit then .ok (w :: rest')
+        else if c.isAlpha && w.toList.all Char.isAlphanum then .ok rest'
+        else .error .unsupported
+
 def specArg (ws : List String) : Except Err (Spec × List String) :=
   match ws with
   | [] => .error .parse                       -- "Unexpected end of expression"
   | w :: rest =>
     match parseSpec w with
-    | some (.ok s) => .ok (s, rest)
+    | some (.ok s) =>
+      if allDigits w then
+        match afterInt rest with
+        | .ok rest' => .ok (s, rest')
+        | .error e => .error e
+      else .ok (s, rest)
     | some (.error e) => .error e
     | none =>
       if Gen.otherWords.contains w then .error .unsupported else .error .parse
@@ -446,10 +479,20 @@ def parseLoop : Nat → List String → PState → Except Err PState
     else match keywordDuration? w with
       | some d => parseLoop fuel rest { st with duration := some d }
       | none =>
-        match parseSpec w with
-        | some (.ok s) => parseLoop fuel rest { st with incl := some s }
-        | some (.error e) => .error e
-        | none => if Gen.otherWords.contains w then .error .unsupported else .error .parse
+        match specArg (w :: rest) with
+        | .ok (s, rest') =>
+          -- a date word replaces the inclusion specifier (`specifier = date`, times.cc 581); a bare
+          -- integer only sets its year and keeps month and day (times.cc 644-646, 816-820)
+          let s' : Spec := if allDigits w then
+              (match st.incl with
+               | some old => { old with year := s.year }
+               | none => s)
+            else s
+          let ok : Bool := match s'.month, s'.day with
+            | some m, some d => validYMD s'.year m d
+            | _, _ => true
+          if ok then parseLoop fuel rest' { st with incl := some s' } else .error .parse
+        | .error e => .error e
 
 def words (s : String) : List String :=
   (s.toLower.splitOn " ").filter (fun w => !w.isEmpty)
@@ -458,6 +501,9 @@ def words (s : String) : List String :=
     builds the range: since/until win over an inclusion specifier. -/
 def parsePeriod (text : String) : Except Err Period :=
   let ws := words text
+  -- the lexer splits words at every change between alphanumeric and other characters and has
+  -- tokens for `-` and `.`; only words made of letters, digits and `/` are modelled
+  if ws.any (fun w => !(w.toList.all (fun c => c.isAlphanum || c = '/'))) then .error .unsupported else
   match parseLoop (ws.length + 1) ws {} with
   | .error e => .error e
   | .ok st =>
